@@ -23,18 +23,20 @@ HYPER = 2715648
 DELTAS = [0] + list(range(2, 61)) + [1325, 1326, 2715647]
 
 
-def build(ctx):
+def build(ctx, uchar=False):
+    """uchar: plain 'char' unsigned as on the firmware's real target (ARM ABI)"""
     b = ctx.build
-    inc = cbuild.FW_INC + ["-I", os.path.join(cbuild.CSHIM, "fw/cfgdir/a/b")]
+    sfx = "_uc" if uchar else ""
+    inc = cbuild.FW_INC + ["-I", os.path.join(cbuild.CSHIM, "fw/cfgdir/a/b")] + (["-funsigned-char"] if uchar else [])
     objs = [
-        cbuild.compile_obj(os.path.join(REPO, "src/target/firmware/layer1/sync.c"), os.path.join(b, "sync.o"), inc),
-        cbuild.compile_obj(os.path.join(REPO, "src/shared/libosmocore/src/gsm/gsm_utils.c"), os.path.join(b, "gsm_utils.o"), inc),
-        cbuild.compile_obj(os.path.join(ctx_c("drv_gsmtime.c")), os.path.join(b, "drv.o"), inc),
+        cbuild.compile_obj(os.path.join(REPO, "src/target/firmware/layer1/sync.c"), os.path.join(b, "sync%s.o" % sfx), inc),
+        cbuild.compile_obj(os.path.join(REPO, "src/shared/libosmocore/src/gsm/gsm_utils.c"), os.path.join(b, "gsm_utils%s.o" % sfx), inc),
+        cbuild.compile_obj(os.path.join(ctx_c("drv_gsmtime.c")), os.path.join(b, "drv%s.o" % sfx), inc),
     ]
-    stubs = os.path.join(b, "stubs.c")
+    stubs = os.path.join(b, "stubs%s.c" % sfx)
     cbuild.weak_stubs(objs, stubs)
-    objs.append(cbuild.compile_obj(stubs, os.path.join(b, "stubs.o"), [], sanitize=False))
-    return cbuild.link(objs, os.path.join(b, "drv_gsmtime"))
+    objs.append(cbuild.compile_obj(stubs, os.path.join(b, "stubs%s.o" % sfx), [], sanitize=False))
+    return cbuild.link(objs, os.path.join(b, "drv_gsmtime" + sfx))
 
 
 def ctx_c(name):
@@ -50,7 +52,18 @@ def run_drv(exe, args):
 
 
 def c_side(ctx, rec):
-    exe = build(ctx)
+    fails = c_side_variant(ctx, rec, False)
+    have = set(f.sig for f in fails)
+    for f in c_side_variant(ctx, rec, True):
+        if f.sig not in have:
+            f.sig += ":unsigned-char-build"
+            f.case = dict(f.case, unsigned_char=True)
+            fails.append(f)
+    return fails
+
+
+def c_side_variant(ctx, rec, uchar):
+    exe = build(ctx, uchar)
     fails = []
     jobs = []
     nshard = 16
@@ -145,7 +158,7 @@ def py_side(ctx, rec):
 def replay(case):
     from harness.core import Ctx, Violation
     if "args" in case:
-        exe = build(Ctx("C19", "quick", 1))
+        exe = build(Ctx("C19", "quick", 1), bool(case.get("unsigned_char")))
         r = run_drv(exe, case["args"])
         if r.returncode != 0:
             raise Violation("c19:sanitizer-or-crash", (r.stderr or "")[-500:])
